@@ -9,6 +9,7 @@
 #include <boost/iterator/function_output_iterator.hpp>
 static bool g_no_emit = false;
 static bool g_log_forest = false;       // add the spanning forest of ForestIndex (public API) to the Call event
+static bool g_positional = false;        // --positional: every third input also with a positional output iterator
 static int g_layouts = 1;               // number of memory layouts (address orders of the edge nodes) per graph
 static std::size_t g_node_size = 0;
 
@@ -34,7 +35,7 @@ struct Runner {
     typedef typename boost::property_traits<WMap>::value_type W;
 
     // layout 0 = whatever malloc gives; layout 1 = edge nodes in reverse address order; >= 2 = seeded random order
-    static void run(const InGraph &in, const std::string &algo, const char *wt, long tol, const std::string &meta_in, int layout = 0) {
+    static void run(const InGraph &in, const std::string &algo, const char *wt, long tol, const std::string &meta_in, int layout = 0, bool positional = false) {
         Built<Graph> b;
         std::string meta = meta_in;
         if (layout == 0) build(in, b);
@@ -57,6 +58,7 @@ struct Runner {
         // all regions of this call run under a seeded random schedule (different per item and algorithm)
         vtbb::ctl().begin_call(); vtbb::ctl().mode = 1; vtbb::ctl().seed = (std::uint64_t) in.id * 2654435761ULL + std::hash<std::string>()(algo);
 #endif
+        if (positional) meta = meta.empty() ? std::string("{\"sink\":\"positional\"}") : meta.substr(0, meta.size() - 1) + ",\"sink\":\"positional\"}";
         J c;
         c.s("e", "Call").s("algo", algo).s("wt", wt).i("id", in.id).i("n", in.n).raw("edges", edges_json(in)).i("den", in.den).i("tol", tol);
         if (!meta.empty()) c.raw("meta", meta);
@@ -77,9 +79,30 @@ struct Runner {
             for (auto &e : cyc) idx.push_back(b.idx(e));
             emit(J().s("e", "Emit").arr("cyc", idx).str());
         });
+        // positional sink: an iterator into a pre-sized vector, as a caller that knows m - n + c would use (a copy of the
+        // iterator that is not advanced overwrites earlier cycles); the caller then finds the non-empty slots
+        std::vector<std::list<Edge>> slots(positional ? in.edges.size() + 8 : 0);
         try {
             W ret;
-            if (algo == "signed") ret = parmcb::mcb_sva_signed(g, wm, sink);
+            if (positional) {
+                auto ps = slots.begin();
+                if (algo == "signed") ret = parmcb::mcb_sva_signed(g, wm, ps);
+                else if (algo == "fvs") ret = parmcb::mcb_sva_fvs_trees(g, wm, ps);
+                else if (algo == "iso") ret = parmcb::mcb_sva_iso_trees(g, wm, ps);
+#ifdef PARMCB_HAVE_TBB
+                else if (algo == "signed_tbb") ret = parmcb::mcb_sva_signed_tbb(g, wm, ps);
+                else if (algo == "fvs_tbb") ret = parmcb::mcb_sva_fvs_trees_tbb(g, wm, ps);
+                else if (algo == "iso_tbb") ret = parmcb::mcb_sva_iso_trees_tbb(g, wm, ps);
+#endif
+                else { emit(J().s("e", "Crash").s("what", "unknown algo " + algo).str()); return; }
+                for (auto &sl : slots) if (!sl.empty()) {
+                    ncyc++;
+                    if (g_no_emit) continue;
+                    std::vector<long> idx; for (auto &e : sl) idx.push_back(b.idx(e));
+                    emit(J().s("e", "Emit").arr("cyc", idx).str());
+                }
+            }
+            else if (algo == "signed") ret = parmcb::mcb_sva_signed(g, wm, sink);
             else if (algo == "fvs") ret = parmcb::mcb_sva_fvs_trees(g, wm, sink);
             else if (algo == "iso") ret = parmcb::mcb_sva_iso_trees(g, wm, sink);
 #ifdef PARMCB_HAVE_TBB
@@ -110,6 +133,7 @@ int main(int argc, char **argv) {
     g_no_emit = has_flag(argc, argv, "--no-emit");
     g_log_forest = has_flag(argc, argv, "--forest");
     g_layouts = atoi(arg_value(argc, argv, "--layouts", "1"));
+    g_positional = has_flag(argc, argv, "--positional");
     if (!in || !out) { fprintf(stderr, "usage: h_mcb --in F --out F [--algos a,b] [--types double,int] [--start k]\n"); return 2; }
     g_out = fopen(out, start > 0 ? "a" : "w");
     if (!g_out) { perror("open out"); return 2; }
@@ -126,6 +150,10 @@ int main(int argc, char **argv) {
                 if (g.edges.size() > 2000 && lay > 0) break;
                 if (t == "double") Runner<GraphD>::run(g, a, "double", tol, meta, lay);
                 else if (t == "int" && g.den == 1) Runner<GraphI>::run(g, a, "int", tol, meta, lay);
+            }
+            if (g_positional && g.id % 3 == 0 && g.edges.size() <= 2000) {      // every third input additionally through a positional output iterator
+                if (t == "double") Runner<GraphD>::run(g, a, "double", tol, meta, 0, true);
+                else if (t == "int" && g.den == 1) Runner<GraphI>::run(g, a, "int", tol, meta, 0, true);
             }
             alarm(0);
         }
